@@ -275,3 +275,36 @@ def shrink_candidates(c):
             e["ops"] = ok
             out.append(e)
     return out
+
+
+def extra_phase(ctx):
+    """slop queries are queries too (not in the Coq state machine): on views over corpora with crowded documents (the
+    span table overflows and falls back to an estimate) a slop frequency / score must (a) be the parent's value at the
+    same rows and (b) be unchanged by read-only operations on the view.  Implementation-only oracle."""
+    import random
+    from harness import common as C
+    tier, out = ctx["tier"], ctx["out"]
+    rng = random.Random(repr((ctx["seed"], "c07-slop")))
+    n = {"quick": 40, "thorough": 600, "search": 80}[tier]
+    cases = []
+    for _ in range(n):
+        k = rng.choice([2, 2, 3])
+        ph = [rng.randrange(k) for _ in range(rng.randint(2, 4))]
+        docs = []
+        for _d in range(rng.randint(2, 6)):
+            kind = rng.choice(["crowded", "crowded", "short", "empty", "medium"])
+            ln = {"crowded": rng.randint(250, 700), "short": rng.randint(1, 12), "empty": 0, "medium": rng.randint(30, 120)}[kind]
+            docs.append([rng.randrange(k) if rng.random() < 0.9 else 9 for _ in range(ln)])
+        nd = len(docs)
+        rows = sorted(rng.sample(range(nd), rng.randint(1, nd))) if rng.random() < 0.6 else [rng.randrange(nd) for _ in range(rng.randint(1, 4))]
+        cases.append({"docs": docs, "ph": ph, "slop": rng.choice([1, 2, 3, 5]), "rows": rows, "avoid": rng.random() < 0.7,
+                      "ops": [rng.choice(["slice", "mask", "take", "copyslice", "edismax", "tf"]) for _ in range(rng.randint(1, 3))]})
+    res = C.run_impl("harness.props.c07_slop", cases, ctx["scratch"], timeout=1800)
+    bad = 0
+    for c, r in zip(cases, res):
+        ok = isinstance(r, dict) and "first" in r and r["first"] == r["second"] and r["sfirst"] == r["ssecond"] \
+            and r["first"] == [r["parent"][i] for i in c["rows"]]
+        if not ok:
+            bad += 1
+            out.violations.append((c, r, None, None, "slop query on a view: not repeatable / not the parent's answer"))
+    return {"slop_view_cases": len(cases), "slop_view_failures": bad}
